@@ -38,6 +38,25 @@ type MemStore struct {
 	FailOp  string
 	// FailOnlyOps restricts injected faults to these op kinds when non-empty ("read","write","remove").
 	FailOnlyOps string
+	// FailKind/FailKindAt: fail the FailKindAt-th (1-based) operation of kind FailKind, once.
+	FailKind   string
+	FailKindAt int
+	kindCount  map[string]int
+}
+
+// ArmKindFault arms a single fault on the n-th operation of the given kind from now on.
+func (s *MemStore) ArmKindFault(kind string, n int) {
+	s.mu.Lock()
+	defer s.mu.Unlock()
+	s.FailKind, s.FailKindAt, s.FailHit, s.FailOp = kind, n, false, ""
+	s.kindCount = map[string]int{}
+}
+
+// Disarm removes any armed fault.
+func (s *MemStore) Disarm() {
+	s.mu.Lock()
+	defer s.mu.Unlock()
+	s.FailKind, s.FailKindAt, s.FailAt = "", 0, 0
 }
 
 // NewMemStore creates an empty store.
@@ -56,6 +75,17 @@ func cp(b []byte) []byte {
 
 func (s *MemStore) fault(op string) bool {
 	s.OpCount++
+	if s.FailKindAt != 0 && !s.FailHit {
+		if s.kindCount == nil {
+			s.kindCount = map[string]int{}
+		}
+		s.kindCount[op]++
+		if op == s.FailKind && s.kindCount[op] == s.FailKindAt {
+			s.FailHit = true
+			s.FailOp = op
+			return true
+		}
+	}
 	if s.FailAt != 0 && s.OpCount == s.FailAt && !s.FailHit {
 		if s.FailOnlyOps != "" && !strings.Contains(s.FailOnlyOps, op) {
 			return false
